@@ -32,6 +32,8 @@ def position(p, e):
         raise Unhandled(f'position {e!r} is not a scanner result plus a constant')
     s = list(e.t)[0]
     m = p.markers.get(s)
+    if m is None and s == 'len(W)' and e.c == 0:
+        return 'END'            # the end of the buffer (e.g. Vec::truncate removes [n, len))
     if m is None:
         raise Unhandled(f'position symbol {s} is not a scanner result')
     if e.c == 0:
@@ -426,6 +428,10 @@ class Builder:
                     m = mclass.get(c)
                     if m is not None and m == cutR:
                         n.add_eps(a, st(('pc', 0, None, t)))
+                    elif m is not None and m in keep:
+                        # a boundary of ANOTHER component lies inside the removed range: its marker survives without its text, so the
+                        # marked result is not a decomposition ("every other component unchanged" fails) and the inclusion reports it
+                        n.add(a, out_letter(m), out_letter(m), st(('mid', t)))
                     else:
                         n.add_eps(a, st(('mid', t)))
             elif kind == 'pc':
